@@ -17,6 +17,9 @@ func (t *WeightedMerkleTrie) GetPath(keys [][]byte) ([]byte, error) {
 
 	if t.root != nil {
 		if node, ok := t.root.(*hashNode); ok {
+			if t.db == nil {
+				return nil, errors.New("database is not set")
+			}
 			data, err := t.db.Get(node.Hash())
 			if err != nil {
 				return nil, err
@@ -189,6 +192,9 @@ func (t *WeightedMerkleTrie) deserializeTrie(pairs []*PersistTriePair, ind *int)
 	}
 	if *ind >= len(pairs) {
 		return nil, errors.New("index out of bounds")
+	}
+	if pairs[*ind] == nil {
+		return nil, errors.New("invalid node")
 	}
 
 	node, err := DeserializeNode(pairs[*ind].Value)
